@@ -314,7 +314,7 @@ def make_machine(col, tier, t_end):
                 self.ns = dict(NS_XML)
             else:
                 self.recipe, self.flavour = htmldoc.gen_html_doc(ch, depth=2 if tier == 'quick' else 3,
-                                                                 iframe_rooted=False, memo_rich=True)
+                                                                 iframe_rooted=False, memo_rich=True, fragment=0.3)
             # a quarter of the documents carry values only a program can store (lists with non-string items, ...)
             self.odd = [[ch.i(0, 40), ch.pick(ODD_ATTRS), ch.i(0, len(ODD) - 1)] for _ in range(ch.i(1, 4))] if ch.p(0.25) else None
             sv.purge()
